@@ -381,6 +381,7 @@ class FullEngine(Engine):
                           (th.Len(R) == th.Len(s)) == th.Nodup(s)]
                 return self.new_root(st, v.t, R)
             v = self.expr(A[0], st); self.need_not_none(st, v, ast.unparse(A[0]))
+            if self.is_opq(v): return self.new_root(st, LVAL, OpqAsList(v.term))          # list(<library value>): its elements in iteration order (ASSUMED function of the value)
             if isinstance(v, PRef) and isinstance(v.t, TDict): return self.new_root(st, TList(v.t.k), v.t.keys(self.term(st, v)))
             v = self.as_list(v)
             if isinstance(v, PRef) and isinstance(v.t, TList): return self.new_root(st, v.t, self.term(st, v))
@@ -670,6 +671,7 @@ IntAsValTrig = Function('IdxTrig', IntSort(), BoolSort())
 OPQ = TOpaque('Opq')
 OpqReal = Function('OpqAsReal', OPQ.sort(), RealSort()); OpqInt = Function('OpqAsInt', OPQ.sort(), IntSort()); OpqTruth = Function('OpqTruth', OPQ.sort(), BoolSort())
 OpqVal = Function('OpqAsVal', OPQ.sort(), Val)
+OpqAsList = Function('OpqAsList', OPQ.sort(), LVAL.sort())          # the elements of an iterable library value, in iteration order
 _opq_fns = {}
 
 
